@@ -39,6 +39,16 @@ var c17LexModes = []int{
 	l3Files | l3NoStar | l3DotGlob | l3Ext,
 }
 
+// c17FilenameEdges: boundary patterns for the filename modes (every one goes through the tie, the
+// specification stream and the slash invariant under each filename lexing mode).
+var c17FilenameEdges = []string{
+	`[\/]`, `[a\/]`, `[\/a]`, `x[a\/b]y`, `[!a\/]`, `[^\/]a`, `a[\/]b`, `[[:alpha:]\/]`, `[a\/`, `+([\/a])`, `@(a|[b\/])`,
+	`[a/b]`, `[/]`, `a[/]b`, `[!/]`, `[a/`, `[[./.]]`, `[.-0]`, `[[:punct:]]`, `[!a]`,
+	`[*/`, `x[*/`, `a/[*b/`, `[**/`, `[*`, `[*/a`, `[?/`, `a[/*`,
+	`*/`, `/*`, `*/*`, `a/*/b`, `**/a`, `a/**`, `a/**/b`, `**`, `***`, `a**`, `**a`, `/**/`, `**/**`,
+	`?/?`, `?a`, `.?`, `*.a`, `.*`, `*/.*`, `a/.b`, `[.]a`, `\.a`, `a\/b`, `a\/*`, `\/*`, `*\/`,
+}
+
 var c17FlagModes = []int{l3Entire, l3Entire | l3NoCase, l3Entire | l3Shortest, 0, l3Shortest, l3NoCase, l3Entire | l3NoCase | l3Shortest}
 
 // c17Known lists the documented divergence regions (known findings, see props/C17.notes.md and
@@ -232,17 +242,67 @@ func c17Tie(c *Ctx, p string, mode int, deep bool) {
 	if mode&l3Entire == 0 {
 		return
 	}
+	c17Spec(c, p, mode, in, alpha, n, strs)
+}
+
+// c17Spec puts the property itself to the real matcher on all subjects up to length n over alpha:
+// the reference semantics (spec op, unless the pattern lies in a known divergence region) and the
+// oracle-free slash invariant of the filename modes.
+func c17Spec(c *Ctx, p string, mode int, in *l3Info, alpha string, n int, strs []string) {
 	known := c17Known(in, p, mode)
 	for _, k := range known {
 		c.Hist["known:"+k]++
 	}
+	got := c17GoAnswer(p, mode, strs)
 	if len(known) == 0 {
 		// the property itself: reference semantics = the real matcher
-		c.Op(fmt.Sprintf("spec %d %s %s %d", mode, hx(p), hx(alpha), n), c17GoAnswer(p, mode, strs))
+		c.Op(fmt.Sprintf("spec %d %s %s %d", mode, hx(p), hx(alpha), n), got)
 		if in.supported {
 			c.Hist["spec:supported"]++
 		} else {
 			c.Hist["spec:outside-theorem"]++
+		}
+	}
+	c17SlashInvariant(c, p, mode, in, strs, got, "")
+}
+
+// c17SpecOnly: the specification stream alone (no rx/matcher tie), for EntireString modes.
+func c17SpecOnly(c *Ctx, p string, mode int) {
+	if mode&l3Entire == 0 {
+		return
+	}
+	alpha := c17StrAlpha(p, mode)
+	n := 3
+	c17Spec(c, p, mode, l3Analyze(p, mode), alpha, n, l3Enum(alpha, n))
+}
+
+// c17SlashInvariant is the documented contract of the Filenames mode, checked without any
+// oracle: `*`, `?` and bracket expressions never match a slash, so a name can only match when it
+// has exactly as many slashes as the pattern has (every slash of the pattern text is a literal one:
+// plain, escaped, or inside a bracket expression that is thereby not a bracket expression).
+// Left out: `**` with globstar enabled, pattern-lists containing a slash or `!(…)`, and the known
+// finding C17-bracket-matches-slash (negated brackets, ranges and classes that contain '/').
+func c17SlashInvariant(c *Ctx, p string, mode int, in *l3Info, strs []string, got string, witness string) {
+	if mode&l3Files == 0 || mode&l3Entire == 0 || len(got) != len(strs) {
+		return
+	}
+	if mode&l3NoStar == 0 && strings.Contains(p, "**") {
+		return
+	}
+	if in.slashMember || in.slashInGroup || in.negExt > 0 || in.unterminatedGroup {
+		return
+	}
+	want := strings.Count(p, "/")
+	c.Hist["slashinv:patterns"]++
+	for i, s := range strs {
+		if got[i] == '1' && strings.Count(s, "/") != want {
+			w := witness
+			if w == "" {
+				w = fmt.Sprintf("slashinv %d %s %s", mode, hx(p), hx(s))
+			}
+			c.Fail(w, fmt.Sprintf("Filenames mode %d: pattern %q (%d slashes) matches %q (%d slashes): a wildcard or bracket expression matched a slash, or a literal slash was dropped",
+				mode, p, want, s, strings.Count(s, "/")))
+			return
 		}
 	}
 }
@@ -395,6 +455,15 @@ func c17Witness(pr c17Probe, goBits, want string) (string, string) {
 // the real matcher must give the expected verdict (taken from bash by hand).
 func c17Replay(c *Ctx, line string) {
 	f := strings.Fields(line)
+	if len(f) == 4 && f[0] == "slashinv" {
+		if mode, err := strconv.Atoi(f[1]); err == nil {
+			p, s := unhx(f[2]), unhx(f[3])
+			c.Case("replay "+line, true, "replay")
+			c17Tie(c, p, mode, false)
+			c17SlashInvariant(c, p, mode, l3Analyze(p, mode), []string{s}, c17GoAnswer(p, mode, []string{s}), line)
+		}
+		return
+	}
 	if len(f) != 5 || f[0] != "match" || !strings.HasPrefix(f[4], "expect=") {
 		return
 	}
@@ -435,7 +504,7 @@ func c17GenBracket(r *Rand) (string, string) {
 			sb.WriteString("[:" + cl + ":]")
 			hit = map[string]string{"alpha": "q", "digit": "7", "upper": "Q", "lower": "q", "punct": ";", "space": " ", "alnum": "7", "xdigit": "f", "word": "_", "blank": " "}[cl]
 		case 4:
-			ch := r.Pick([]string{"]", "-", "[", "!", "^", "\\"})
+			ch := r.Pick([]string{"]", "-", "[", "!", "^", "\\", "/"})
 			sb.WriteString("\\" + ch)
 			hit = ch
 		case 5:
@@ -575,6 +644,11 @@ func c17(c *Ctx) {
 		bashBudget = 600
 	}
 	idx := 0
+	// the extended search ./check runs after a broken obligation (no corpus, one shard) digs deeper
+	specEvery := 60
+	if c.Corpus == "" && c.Shards <= 1 {
+		specEvery = 6
+	}
 	consider := func(p string, mode int, strs []string) {
 		// candidate for the bash leg: EntireString modes without Filenames (real globbing covers those)
 		if mode&l3Entire == 0 || mode&l3Files != 0 || !l3ShellSafe(p) {
@@ -609,6 +683,11 @@ func c17(c *Ctx) {
 			mode := lm | c17FlagModes[c.R.Intn(len(c17FlagModes))]
 			deep := l <= 2 || c.R.Intn(40) == 0
 			c17Tie(c, p, mode, deep)
+			if !deep && (l == 3 || c.R.Intn(specEvery) == 0) {
+				// every pattern of length 3 (and a sample of the longer ones) goes through the
+				// specification stream under the EntireString variant of its mode
+				c17SpecOnly(c, p, lm|l3Entire)
+			}
 			c.Case(fmt.Sprintf("%d %s", mode, p), strings.ContainsAny(p, "*?[\\("), c17Classify(p)...)
 			if c.R.Intn(900) == 0 {
 				consider(p, mode|l3Entire, l3Enum(c17StrAlpha(p, mode), 2))
@@ -625,6 +704,22 @@ func c17(c *Ctx) {
 		}
 	}
 	rec("", 0)
+
+	// boundary shapes of the filename modes: slashes next to and inside bracket expressions,
+	// escaped slashes, unclosed brackets before a wildcard, `**` variants, leading dots
+	if c.Shard == 0 {
+		for _, p := range c17FilenameEdges {
+			for _, lm := range c17LexModes {
+				if lm&l3Files == 0 {
+					continue
+				}
+				mode := lm | l3Entire
+				c17Tie(c, p, mode, false)
+				c17SpecOnly(c, p, mode)
+				c.Case(fmt.Sprintf("%d %s", mode, p), true, append(c17Classify(p), "fn-edge")...)
+			}
+		}
+	}
 
 	// random longer patterns
 	for i := 0; i < c.N; i++ {
@@ -668,6 +763,7 @@ func c17(c *Ctx) {
 			}
 			c.Op(fmt.Sprintf("specl %d %s %s", mode, hx(p), strings.Join(hs, " ")), c17GoAnswer(p, mode, strs))
 		}
+		c17SlashInvariant(c, p, mode, in, strs, c17GoAnswer(p, mode, strs), "")
 		if i%3 == 0 {
 			consider(p, mode, strs)
 		}
